@@ -211,11 +211,12 @@ def run(ctx):
             upd = [e for e in p.events[idx:] if e.kind == "call" and is_notify(ctx, e, ("update",))]
             app = [
                 e for e in p.events[:idx]
-                if e.kind == "write" and e.data.get("method") == "append" and e.frame.fi.cls is not None and e.frame.fi.cls.name == "Schedule"
+                if e.kind == "write" and e.data.get("method") in ("append", "insert") and e.frame.fi.cls is not None and e.frame.fi.cls.name == "Schedule"
             ]
             if upd and app:
                 a1 = upd[0].node.args[0] if upd[0].node.args else None
-                a2 = app[0].node.args[0] if app[0].node.args else None
+                # (the object added is the last argument of `insert(position, x)`)
+                a2 = app[0].node.args[-1] if app[0].node.args else None
                 if a1 is None or a2 is None:
                     raise AnalysisError("notification/append argument not found")
                 r1 = _resolve_expr(upd[0], a1)
